@@ -140,7 +140,6 @@ def arm_blocks(body, arms, other, name):
     mine = mir.reachable(body, [tgt])
     others = [mir.reachable(body, [t]) for n, t in arms.items() if t != tgt]
     if others:
-        common = set.intersection(*others) if len(others) > 1 else set()
         join = {b for b in mine if others and all(b in o for o in others)}
         mine = mine - join
     return mine
